@@ -33,6 +33,7 @@ func (h Header) String() string {
 }
 
 func NewHeader(totalLength uint32, commandID CommandID, nodeID, sequenceID uint32) Header {
+	clockYield()
 	return Header{TotalLength: totalLength, CommandID: commandID, Sequence: [3]uint32{nodeID, Timestamp(time.Now()), sequenceID}}
 }
 
